@@ -36,6 +36,9 @@ func runC07(c *Ctx) {
 	rebuildOnOpen(c, "R7")
 	recoveryHeightAgreement(c, "R7")
 	cacheTilesPersistedAlways(c, "R7")
+	loadStateInstallsWhatItDecodes(c, "R5")
+	applyPathNoRecover(c, "R1")
+	readerErrOnlyWithEmptyChunk(c, "R7")
 	c.Rule("R8", "no store write bypasses the write-ahead log", 1)
 	walNeverDisabled(c, "R8")
 }
